@@ -411,3 +411,74 @@ func Returns(fn *ssa.Function) []*ssa.Return {
 // Result is result i of a return, looking through the spill slots go/ssa
 // introduces for functions with defers or named results.
 func Result(r *ssa.Return, i int) ssa.Value { return Forward(r.Results[i]) }
+
+// ConcreteCut returns an edge predicate that removes the infeasible successor
+// of every `if` whose condition compares a value matched by isVar with an
+// integer constant, for the concrete value c of that variable (other
+// conditions keep both successors). Combined with Reach it evaluates guards of
+// the shape `r >= 'A' && r <= 'Z'` exactly for one input.
+func ConcreteCut(fn *ssa.Function, isVar func(ssa.Value) bool, c int64) func(Edge) bool {
+	dead := map[Edge]bool{}
+	for _, b := range fn.Blocks {
+		iff, ok := b.Instrs[len(b.Instrs)-1].(*ssa.If)
+		if !ok {
+			continue
+		}
+		cond := iff.Cond
+		flip := false
+		for {
+			if u, ok := cond.(*ssa.UnOp); ok && u.Op == token.NOT {
+				cond, flip = u.X, !flip
+				continue
+			}
+			break
+		}
+		bo, ok := cond.(*ssa.BinOp)
+		if !ok {
+			continue
+		}
+		var k int64
+		var op token.Token
+		if isVar(Strip(bo.X)) {
+			kk, ok := ConstInt(bo.Y)
+			if !ok {
+				continue
+			}
+			k, op = kk, bo.Op
+		} else if isVar(Strip(bo.Y)) {
+			kk, ok := ConstInt(bo.X)
+			if !ok {
+				continue
+			}
+			k, op = kk, flipOp(bo.Op)
+		} else {
+			continue
+		}
+		var val bool
+		switch op {
+		case token.EQL:
+			val = c == k
+		case token.NEQ:
+			val = c != k
+		case token.LSS:
+			val = c < k
+		case token.LEQ:
+			val = c <= k
+		case token.GTR:
+			val = c > k
+		case token.GEQ:
+			val = c >= k
+		default:
+			continue
+		}
+		if flip {
+			val = !val
+		}
+		if val {
+			dead[Edge{b, b.Succs[1]}] = true
+		} else {
+			dead[Edge{b, b.Succs[0]}] = true
+		}
+	}
+	return func(e Edge) bool { return dead[e] }
+}
